@@ -30,8 +30,8 @@ pub struct Invocation {
     pub read: Vec<Vec<u8>>,
     /// End-of-file observations per stream index (Ok(0) on a non-empty buffer / empty fill_buf).
     pub eof: Vec<bool>,
-    /// (error kind, operation) for every I/O error the handler observed.
-    pub errors: Vec<(String, String)>,
+    /// (error kind, operation, input bytes read by the library at that time) for every I/O error the handler observed.
+    pub errors: Vec<(String, String, usize)>,
     /// Completed writes in completion order: (stream type, data, returned count).
     pub writes: Vec<(u8, Vec<u8>, usize)>,
     pub status: Option<String>,
@@ -85,6 +85,8 @@ pub struct PlanOpts {
     pub abort: bool,
     pub small_buf_bias: bool,
     pub force_keep: bool,
+    /// Only position-independent noise everywhere (no END-type replies), open- or closed-loop gating.
+    pub either_noise: bool,
 }
 
 fn reply_is_end(r: &Reply) -> bool {
@@ -104,14 +106,29 @@ pub fn gen_plan(cx: &mut Ctx, o: &PlanOpts) -> Plan {
         let id = gen_id(cx);
         let role = gen_role(cx);
         let last = i + 1 == k;
-        let keep = if last { cx.ch.chance(1, 2) && !o.force_keep || o.force_keep && cx.ch.chance(1, 2) } else { true };
+        let keep = if last { o.force_keep || cx.ch.chance(1, 2) } else { true };
         let mut flags = if cx.ch.chance(1, 3) { cx.ch.byte() & 0xfe } else { 0 };
         if keep { flags |= 1; }
         let pairs = gen_pairs(cx, 4, pair_cap, false);
         let start = all.len();
         let mut recs = Vec::new();
         let noise = if o.closed_loop { o.noise } else { o.noise };
-        if o.closed_loop {
+        if o.abort && cx.ch.chance(1, 3) {
+            // an attempt aborted during its Params stream: answered at once, no handler invocation
+            let aid = if cx.ch.chance(1, 2) { id } else { gen_id(cx) };
+            let apairs = gen_pairs(cx, 3, pair_cap, false);
+            let mut tmp = Vec::new();
+            let (arole, aflags) = (gen_role(cx), cx.ch.byte());
+            preamble_records(cx, &mut tmp, aid, arole, aflags, &apairs, 0, 24, false);
+            tmp.pop();
+            let keep_n = cx.ch.range(1, tmp.len());
+            tmp.truncate(keep_n);
+            recs.extend(tmp);
+            let pad = gen_padding(cx);
+            recs.push(Rec::new(ABORT, aid, Vec::new(), pad));
+            cx.probe("abort_during_params_async");
+        }
+        if o.closed_loop || o.either_noise {
             // only GetValues / unknown-type / skipped noise, at every phase
             closed_loop_noise(cx, &mut recs, id, noise);
             let pad = gen_padding(cx);
@@ -334,7 +351,7 @@ async fn h_read(req: &mut Req<'_>, st: &mut HState, len: usize) -> io::Result<us
         }
         Err(e) => {
             let k = kind_name(e);
-            st.with(|_, inv| inv.errors.push((k, "read".into())));
+            st.with(|w, inv| inv.errors.push((k, "read".into(), w.read_pos)));
             st.ev("h_read_err", 0, 0);
         }
     }
@@ -354,7 +371,7 @@ async fn h_fill(req: &mut Req<'_>, st: &mut HState) -> io::Result<usize> {
             let take = if b.is_empty() { 0 } else if st.chance(1, 2) { b.len() } else { st.range(0, b.len()) };
             if b.is_empty() {
                 st.record_read(0, &[], 1);
-            } else {
+            } else if take > 0 {
                 st.record_read(take, &b, b.len());
             }
             Pin::new(&mut *req).consume(take);
@@ -364,7 +381,7 @@ async fn h_fill(req: &mut Req<'_>, st: &mut HState) -> io::Result<usize> {
         }
         Err(e) => {
             let k = kind_name(&e);
-            st.with(|_, inv| inv.errors.push((k, "fill_buf".into())));
+            st.with(|w, inv| inv.errors.push((k, "fill_buf".into(), w.read_pos)));
             st.sample_writeable(req);
             Err(e)
         }
@@ -394,7 +411,8 @@ async fn h_write(w: &mut StreamWriter<SimWrite>, st_world: &Shared, idx: usize, 
             Err(e) => {
                 let k = kind_name(&e);
                 let mut wl = lock(st_world);
-                wl.handler_log[idx].errors.push((k, "write".into()));
+                let rp = wl.read_pos;
+                wl.handler_log[idx].errors.push((k, "write".into(), rp));
                 return Err(e);
             }
         }
@@ -403,7 +421,9 @@ async fn h_write(w: &mut StreamWriter<SimWrite>, st_world: &Shared, idx: usize, 
         let r = poll_fn(|cx| Pin::new(&mut *w).poll_flush(cx)).await;
         if let Err(e) = r {
             let k = kind_name(&e);
-            lock(st_world).handler_log[idx].errors.push((k, "flush".into()));
+            let mut wl = lock(st_world);
+            let rp = wl.read_pos;
+            wl.handler_log[idx].errors.push((k, "flush".into(), rp));
             return Err(e);
         }
     }
@@ -454,7 +474,7 @@ async fn handler_body(req: &mut Req<'_>, world: Shared, mode: HandlerMode) -> io
         w.cx.ev("handler_start", n, u64::from(role));
         w.handler_log.len() - 1
     };
-    let propagate = lock(&world).cx.ch.chance(3, 4);
+    let propagate = { let mut w = lock(&world); let p = w.cx.ch.chance(3, 4); p || w.force_propagate };
     let mut st = HState { world: world.clone(), idx, mode, active: if streams.is_empty() { None } else { Some(0) }, streams, propagate };
     vcheck_h(&st, req.active_stream().map(u8::from) == streams.first().copied(), "c18_initial", "initial active stream wrong");
     st.sample_writeable(req);
@@ -536,7 +556,7 @@ async fn handler_seq(req: &mut Req<'_>, st: &mut HState) -> io::Result<ExitStatu
                     let last = st.streams.len().checked_sub(1);
                     if let Err(e) = r {
                         let k = kind_name(&e);
-                        st.with(|_, inv| inv.errors.push((k, "writeable".into())));
+                        st.with(|w, inv| inv.errors.push((k, "writeable".into(), w.read_pos)));
                         return Err(e);
                     }
                     st.active = last;
@@ -593,7 +613,7 @@ async fn handler_writers(req: &mut Req<'_>, st: &mut HState) -> io::Result<ExitS
         let r = req.writeable().await;
         if let Err(e) = r {
             let k = kind_name(&e);
-            st.with(|_, inv| inv.errors.push((k, "writeable".into())));
+            st.with(|w, inv| inv.errors.push((k, "writeable".into(), w.read_pos)));
             return Err(e);
         }
         st.active = st.streams.len().checked_sub(1);
@@ -662,8 +682,8 @@ pub struct ConnOpts {
     pub mode: HandlerMode,
     pub rfault: RFault,
     pub wfault: WFault,
-    /// Request shutdown as a scheduler event at some point (C14).
-    pub shutdown: bool,
+    /// Request shutdown as a scheduler event once this many steps have run (C14).
+    pub shutdown: Option<u64>,
     pub strict_no_spurious: bool,
 }
 
@@ -722,12 +742,14 @@ pub fn run_conn_with(cx: Ctx, plan: &Plan, knobs: Knobs, o: &ConnOpts, init: imp
     let mut shutdown_task: Option<usize> = None;
     let mut pending_while_live = false;
     let mut ready_while_live = false;
-    let want_shutdown = o.shutdown;
-    let end = {
+    let mut want_shutdown = o.shutdown;
+    let end = loop {
+        let ws = want_shutdown;
         let mut control = |ex: &mut Exec, fire: Option<usize>| -> Vec<usize> {
             match fire {
                 None => {
-                    if want_shutdown && runner_opt.is_some() { vec![0] } else { Vec::new() }
+                    let due = ws.map_or(false, |t| lock(&ex.world).step >= t);
+                    if due && runner_opt.is_some() { vec![0] } else { Vec::new() }
                 }
                 Some(_) => {
                     // request shutdown now
@@ -736,6 +758,8 @@ pub fn run_conn_with(cx: Ctx, plan: &Plan, knobs: Knobs, o: &ConnOpts, init: imp
                         let mut w = lock(&ex.world);
                         let step = w.step;
                         w.shutdown_requested_at_step = Some(step);
+                        w.idle_at_shutdown = w.handler_log.iter().all(|h| h.finished) && w.handler_log.len() <= w.end_requests;
+                        w.reads_after_mark = 0;
                         w.cx.fault("shutdown_requested");
                         let phase = if w.handler_log.iter().any(|h| !h.finished) { "shutdown_during_handler" } else if w.read_calls == 0 { "shutdown_before_first_read" } else { "shutdown_between_or_preamble" };
                         w.cx.probe(phase);
@@ -748,7 +772,17 @@ pub fn run_conn_with(cx: Ctx, plan: &Plan, knobs: Knobs, o: &ConnOpts, init: imp
             }
         };
         let e = ex.run(&mut control);
-        match e { RunEnd::Quiescent => "quiescent", RunEnd::StepCap => "step_cap" }
+        match e {
+            RunEnd::Quiescent => {
+                if want_shutdown.is_some() && runner_opt.is_some() {
+                    // everything settled before the chosen step: request shutdown now
+                    want_shutdown = Some(0);
+                    continue;
+                }
+                break "quiescent";
+            }
+            RunEnd::StepCap => break "step_cap",
+        }
     };
     if let Some(i) = ex.tasks.iter().position(|t| t.name == "shutdown") { shutdown_task = Some(i); }
     let _ = (&mut pending_while_live, &mut ready_while_live);
@@ -792,6 +826,13 @@ pub struct Expect {
 /// Checks the transport log and handler log of a fault-free run against M-conn.
 /// `served`: number of requests that must have been served (all of them for compliant fault-free runs).
 pub fn check_history(out: &ConnOutcome, plan: &Plan, allow_abort_forms: bool, oracle_prefix: &str) -> VResult {
+    check_history_mode(out, plan, allow_abort_forms, oracle_prefix, false, usize::MAX, false)
+}
+
+/// `faulted`: a transport fault was injected: the log may stop early (missing tail is accepted, a
+/// partial record at the end is accepted), everything present must still be right.
+/// `input_limit`: number of input bytes the transport ever delivered (EOF offset).
+pub fn check_history_mode(out: &ConnOutcome, plan: &Plan, allow_abort_forms: bool, oracle_prefix: &str, faulted: bool, input_limit: usize, allow_partial_tail: bool) -> VResult {
     let w = &out.world;
     for inv in &w.handler_log {
         if let Some(v) = &inv.violation { return Err(v.clone()); }
@@ -799,7 +840,12 @@ pub fn check_history(out: &ConnOutcome, plan: &Plan, allow_abort_forms: bool, or
     if let Some(p) = &out.task_panicked {
         vfail!("panic", "Token::run", "connection task panicked: {p}");
     }
-    vcheck!(w.decoded_upto == w.log.len(), &format!("{oracle_prefix}_log_wellformed"), "transport log ends in a partial record ({} trailing bytes)", w.log.len() - w.decoded_upto);
+    if !faulted && !allow_partial_tail {
+        vcheck!(w.decoded_upto == w.log.len(), &format!("{oracle_prefix}_log_wellformed"), "transport log ends in a partial record ({} trailing bytes)", w.log.len() - w.decoded_upto);
+    } else if w.decoded_upto < w.log.len() {
+        let tail = &w.log[w.decoded_upto..];
+        vcheck!(tail[0] == 1 && (tail.len() < 2 || is_known_type(tail[1])), &format!("{oracle_prefix}_log_wellformed"), "partial record at the end of the log does not start like a record: {}", hex(tail));
+    }
     // split the log
     let is_reply = |r: &Rec| r.rtype == GETVALUESRESULT || r.rtype == UNKNOWN;
     let mut reply_bytes = Vec::new();
@@ -837,12 +883,21 @@ pub fn check_history(out: &ConnOutcome, plan: &Plan, allow_abort_forms: bool, or
             }
             if inv.eof[s] {
                 let barrier = rp.sm.hold_limit(Some(s));
-                let ended = rp.sm.stop[s].map_or(false, |p| p == barrier);
-                vcheck!(ended, &format!("{oracle_prefix}_spurious_eof"), "handler {i} saw end-of-file on stream {} but the model has no reachable terminator", role_streams(rp.role)[s]);
+                let ended = rp.sm.stop[s].map_or(false, |p| p == barrier && p + 8 <= input_limit);
+                vcheck!(ended, &format!("{oracle_prefix}_spurious_eof"), "handler {i} saw end-of-file on stream {} but no terminating record of that stream was delivered (input limit {input_limit}, model terminator {:?})", role_streams(rp.role)[s], rp.sm.stop[s]);
+                vcheck!(got.len() == c.len(), &format!("{oracle_prefix}_short_stream"), "handler {i} read stream {} to end-of-file but received {} of {} bytes", role_streams(rp.role)[s], got.len(), c.len());
                 // bytes may legitimately be missing only if the handler skipped ahead; with eof seen on this stream
                 // while it was active from the start, everything must have been delivered
             }
             vcheck!(!inv.eof_then_data, &format!("{oracle_prefix}_eof_not_sticky"), "handler {i} received data after end-of-file on the same stream");
+        }
+        for (kind, op, at) in &inv.errors {
+            if kind == "ConnectionAborted" {
+                let ok = rp.sm.abort.map_or(false, |a| a + 8 <= *at);
+                vcheck!(ok, "c11_spurious_abort", "handler {i} got ConnectionAborted from {op} after {at} input bytes but the model's own-id AbortRequest is at {:?}", rp.sm.abort);
+            } else if !faulted {
+                vfail!(&format!("{oracle_prefix}_handler_error"), "", "handler {i}: {op} failed with {kind} on a fault-free transport");
+            }
         }
         // handler output records
         for (stream, data, n) in &inv.writes {
@@ -892,6 +947,7 @@ pub fn check_history(out: &ConnOutcome, plan: &Plan, allow_abort_forms: bool, or
             continue;
         }
         let Some(g) = others.get(gi) else {
+            if faulted { return Ok(()); }
             vfail!(&format!("{oracle_prefix}_missing_output"), "", "transport log ends after {} non-reply records; next expected {} (handler invocations {}, task done {})", gi, e.short(), w.handler_log.len(), out.task_done);
         };
         if **g != *e {
@@ -900,7 +956,15 @@ pub fn check_history(out: &ConnOutcome, plan: &Plan, allow_abort_forms: bool, or
         gi += 1;
         k += 1;
     }
-    vcheck!(gi == others.len(), &format!("{oracle_prefix}_extra_output"), "unexpected extra record in the log: {}", others[gi.min(others.len() - 1)].short());
+    if gi < others.len() && faulted {
+        // a handler write that was cut short by the fault is not in the handler log: accept one such record
+        // only if it is a partial? no: complete records not accounted for are wrong even under faults, except
+        // a record whose write call had not returned yet when the run ended
+        let pending_ok = others.len() - gi == 1 && (others[gi].rtype == STDOUT || others[gi].rtype == STDERR) && !others[gi].content.is_empty();
+        vcheck!(pending_ok, &format!("{oracle_prefix}_extra_output"), "unexpected extra record in the log: {}", others[gi].short());
+        return Ok(());
+    }
+    vcheck!(gi == others.len(), &format!("{oracle_prefix}_extra_output"), "unexpected extra record in the log: {}", others[gi.min(others.len().saturating_sub(1))].short());
     Ok(())
 }
 
@@ -982,12 +1046,12 @@ fn check_termination(out: &ConnOutcome, plan: &Plan, oracle_prefix: &str) -> VRe
 /// C07: fault-free population, open-loop compliant client.
 pub fn c07(cx: &mut Ctx) -> VResult {
     cx.declare(D2_FAULTS, D2_PROBES);
-    let o = PlanOpts { max_reqs: 4, noise: cx.ch.pick(4), closed_loop: false, abort: false, small_buf_bias: cx.ch.chance(1, 2), force_keep: false };
+    let o = PlanOpts { max_reqs: 4, noise: cx.ch.pick(4), closed_loop: false, abort: false, small_buf_bias: cx.ch.chance(1, 2), force_keep: false, either_noise: false };
     let plan = gen_plan(cx, &o);
     note_plan(cx, &plan);
     let knobs = gen_knobs(cx, true, plan.wire.len());
     let inner = take_cx(cx);
-    let mut out = run_conn(inner, &plan, knobs, &ConnOpts { mode: HandlerMode::Seq, rfault: RFault::None, wfault: WFault::None, shutdown: false, strict_no_spurious: false });
+    let mut out = run_conn(inner, &plan, knobs, &ConnOpts { mode: HandlerMode::Seq, rfault: RFault::None, wfault: WFault::None, shutdown: None, strict_no_spurious: false });
     give_back(cx, &mut out);
     for (i, inv) in out.world.handler_log.iter().enumerate() {
         if let Some(rp) = plan.reqs.get(i) {
@@ -1022,7 +1086,7 @@ pub const C08_PROBES: &[&str] = &[
 pub fn c08(cx: &mut Ctx) -> VResult {
     cx.declare(D2_FAULTS, D2_PROBES);
     cx.declare(&["peer_withhold"], C08_PROBES);
-    let o = PlanOpts { max_reqs: 3, noise: 2 + cx.ch.pick(4), closed_loop: true, abort: false, small_buf_bias: cx.ch.chance(1, 2), force_keep: false };
+    let o = PlanOpts { max_reqs: 3, noise: 2 + cx.ch.pick(4), closed_loop: true, abort: false, small_buf_bias: cx.ch.chance(1, 2), force_keep: false, either_noise: false };
     let plan = gen_plan(cx, &o);
     note_plan(cx, &plan);
     for r in plan.replies.iter().filter(|r| !reply_is_end(r)) {
@@ -1038,7 +1102,7 @@ pub fn c08(cx: &mut Ctx) -> VResult {
     let knobs = gen_knobs(cx, false, plan.wire.len());
     let inner = take_cx(cx);
     let triggers: Vec<usize> = plan.replies.iter().filter(|r| !reply_is_end(r)).map(|r| r.rec_end).collect();
-    let mut out = run_conn_with(inner, &plan, knobs, &ConnOpts { mode: HandlerMode::Seq, rfault: RFault::None, wfault: WFault::None, shutdown: false, strict_no_spurious: true }, |w| {
+    let mut out = run_conn_with(inner, &plan, knobs, &ConnOpts { mode: HandlerMode::Seq, rfault: RFault::None, wfault: WFault::None, shutdown: None, strict_no_spurious: true }, |w| {
         w.owed_triggers = triggers.clone();
     });
     give_back(cx, &mut out);
@@ -1073,4 +1137,266 @@ fn first_begin(plan: &Plan, rp: &ReqPlan) -> usize {
         p += 8 + cl + usize::from(w[p + 6]);
     }
     found
+}
+
+
+pub const C09_PROBES: &[&str] = &["writeable_true_sampled", "writeable_false_sampled", "eof_observed", "filter_role"];
+
+/// C09: async read interfaces and output gating.
+pub fn c09(cx: &mut Ctx) -> VResult {
+    cx.declare(D2_FAULTS, D2_PROBES);
+    cx.declare(&[], C09_PROBES);
+    let o = PlanOpts { max_reqs: 2, noise: cx.ch.pick(5), closed_loop: false, abort: false, small_buf_bias: cx.ch.chance(1, 2), force_keep: false, either_noise: false };
+    let plan = gen_plan(cx, &o);
+    note_plan(cx, &plan);
+    let mut knobs = gen_knobs(cx, true, plan.wire.len());
+    if knobs.write_pending == 0 && cx.ch.chance(1, 2) { knobs.write_pending = 4; }
+    let inner = take_cx(cx);
+    let mut out = run_conn(inner, &plan, knobs, &ConnOpts { mode: HandlerMode::Readers, rfault: RFault::None, wfault: WFault::None, shutdown: None, strict_no_spurious: false });
+    give_back(cx, &mut out);
+    handler_violations(&out)?;
+    for (i, inv) in out.world.handler_log.iter().enumerate() {
+        let Some(rp) = plan.reqs.get(i) else { break };
+        let n = role_streams(rp.role).len();
+        if rp.role == FILTER { cx.probe("filter_role"); }
+        if inv.eof.iter().any(|&e| e) { cx.probe("eof_observed"); }
+        for &(v, a) in &inv.writeable_samples {
+            cx.probe(if v { "writeable_true_sampled" } else { "writeable_false_sampled" });
+            if v {
+                vcheck!(n <= 1 || a == n - 1, "c09_writeable_early", "request {i} (role {}) reports writeable while the active stream index is {a} of {n}", rp.role);
+            }
+            if n <= 1 {
+                vcheck!(v, "c09_writeable_late", "request {i} with {n} input stream(s) is not writeable from the start");
+            }
+        }
+    }
+    check_termination(&out, &plan, "c09")?;
+    check_history(&out, &plan, false, "c09")?;
+    check_replies(&out, &plan, out.world.read_pos, false, "c09")?;
+    Ok(())
+}
+
+pub const C10_PROBES: &[&str] = &["writers_2plus", "write_65535_capped", "zero_length_write", "reply_between_writer_records"];
+
+/// C10: concurrent writers + reply flushing: complete, non-interleaved records.
+pub fn c10(cx: &mut Ctx) -> VResult {
+    cx.declare(D2_FAULTS, D2_PROBES);
+    cx.declare(&[], C10_PROBES);
+    let o = PlanOpts { max_reqs: 2, noise: 1 + cx.ch.pick(5), closed_loop: false, abort: false, small_buf_bias: cx.ch.chance(1, 2), force_keep: false, either_noise: false };
+    let plan = gen_plan(cx, &o);
+    note_plan(cx, &plan);
+    let mut knobs = gen_knobs(cx, true, plan.wire.len());
+    if cx.ch.chance(1, 2) { knobs.write_pending = cx.ch.one_of(&[2u32, 6, 10]); }
+    let inner = take_cx(cx);
+    let mut out = run_conn(inner, &plan, knobs, &ConnOpts { mode: HandlerMode::Writers, rfault: RFault::None, wfault: WFault::None, shutdown: None, strict_no_spurious: false });
+    give_back(cx, &mut out);
+    handler_violations(&out)?;
+    for inv in &out.world.handler_log {
+        let mut tags = std::collections::BTreeSet::new();
+        for (s, d, n) in &inv.writes {
+            if d.is_empty() { cx.probe("zero_length_write"); }
+            if *n == 65535 { cx.probe("write_65535_capped"); }
+            tags.insert((*s, d.first().copied().unwrap_or(0) & 0xf0));
+        }
+        if tags.len() >= 2 { cx.probe("writers_2plus"); }
+    }
+    // every record padded to a multiple of 8 with padding < 8; handler records carry the request id
+    {
+        let w = &out.world;
+        let mut prev_handler = false;
+        for r in &w.decoded {
+            if r.rtype == STDOUT || r.rtype == STDERR {
+                vcheck!(r.padding < 8 && (r.content.len() + usize::from(r.padding)) % 8 == 0, "c10_padding", "output record {} is not padded to a multiple of 8 with padding below 8", r.short());
+                prev_handler = true;
+            } else if (r.rtype == GETVALUESRESULT || r.rtype == UNKNOWN) && prev_handler {
+                cx.probe("reply_between_writer_records");
+            }
+        }
+    }
+    check_termination(&out, &plan, "c10")?;
+    check_history(&out, &plan, false, "c10")?;
+    check_replies(&out, &plan, out.world.read_pos, false, "c10")?;
+    Ok(())
+}
+
+pub const C11_PROBES: &[&str] = &["abort_seen_by_handler", "abort_swallowed_own_status", "abort_not_reached", "abort_during_params_async", "request_after_abort_served", "foreign_abort_ignored"];
+
+/// C11 (async part): abort in the stream phase.
+pub fn c11(cx: &mut Ctx) -> VResult {
+    cx.declare(D2_FAULTS, D2_PROBES);
+    cx.declare(&[], C11_PROBES);
+    let o = PlanOpts { max_reqs: 3, noise: cx.ch.pick(3), closed_loop: false, abort: true, small_buf_bias: cx.ch.chance(1, 2), force_keep: false, either_noise: false };
+    let plan = gen_plan(cx, &o);
+    note_plan(cx, &plan);
+    let knobs = gen_knobs(cx, true, plan.wire.len());
+    let inner = take_cx(cx);
+    let mut out = run_conn(inner, &plan, knobs, &ConnOpts { mode: HandlerMode::Seq, rfault: RFault::None, wfault: WFault::None, shutdown: None, strict_no_spurious: false });
+    give_back(cx, &mut out);
+    handler_violations(&out)?;
+    for (i, inv) in out.world.handler_log.iter().enumerate() {
+        let Some(rp) = plan.reqs.get(i) else { break };
+        if !rp.has_abort { continue; }
+        let saw = inv.errors.iter().any(|(k, _, _)| k == "ConnectionAborted");
+        if saw {
+            cx.probe("abort_seen_by_handler");
+            if inv.status.as_deref().map_or(false, |s| !s.starts_with("err:")) { cx.probe("abort_swallowed_own_status"); }
+        } else {
+            cx.probe("abort_not_reached");
+        }
+        if i + 1 < out.world.handler_log.len() { cx.probe("request_after_abort_served"); }
+        // exactly one EndRequest for the aborted request's id between its start and the next request
+        let ends = out.world.decoded.iter().filter(|r| r.rtype == END && r.id == rp.id).count();
+        let same_id_reqs = plan.reqs.iter().take(out.world.handler_log.len()).filter(|q| q.id == rp.id).count();
+        let noise_ends = plan.replies.iter().filter(|r| reply_is_end(r) && r.bytes[2..4] == rp.id.to_be_bytes()).count();
+        if inv.status.as_deref().and_then(status_to_end).is_some() {
+            vcheck!(ends <= same_id_reqs + noise_ends, "c11_end_request_count", "{ends} EndRequest records for id {} ({} requests with that id, {noise_ends} protocol-level replies)", rp.id, same_id_reqs);
+        }
+    }
+    check_termination(&out, &plan, "c11")?;
+    check_history(&out, &plan, true, "c11")?;
+    check_replies(&out, &plan, out.world.read_pos, false, "c11")?;
+    Ok(())
+}
+
+pub const C12_PROBES: &[&str] = &["fault_points_eof", "fault_points_read_err", "fault_points_write_err", "fault_points_write_zero", "handler_got_unexpected_eof", "handler_got_injected_error", "fault_in_preamble", "fault_in_handler", "fault_in_close"];
+
+/// C12: fault enumeration. One seeded script; then EOF at every input offset, a read error at every
+/// read call, a write error and a zero-length write at every write call, each in a fresh run that
+/// replays the script's choice list.
+pub fn c12(cx: &mut Ctx) -> VResult {
+    cx.declare(D2_FAULTS, D2_PROBES);
+    cx.declare(&[], C12_PROBES);
+    let o = PlanOpts { max_reqs: 2, noise: cx.ch.pick(3), closed_loop: false, abort: false, small_buf_bias: cx.ch.chance(1, 2), force_keep: false, either_noise: false };
+    let plan = gen_plan(cx, &o);
+    note_plan(cx, &plan);
+    if plan.wire.len() > 1500 { 
+        // keep the enumeration affordable: long scripts are sampled at a stride below
+    }
+    let knobs = gen_knobs(cx, false, plan.wire.len());
+    // fault-free reference run, recording the choice list of the run itself
+    let start = cx.ch.log.len();
+    let inner = take_cx(cx);
+    let copts = |rf, wf| ConnOpts { mode: HandlerMode::Seq, rfault: rf, wfault: wf, shutdown: None, strict_no_spurious: true };
+    let mut out = run_conn_with(inner, &plan, knobs, &copts(RFault::None, WFault::None), |w| w.force_propagate = true);
+    give_back(cx, &mut out);
+    handler_violations(&out)?;
+    check_termination(&out, &plan, "c12_baseline")?;
+    check_history(&out, &plan, false, "c12_baseline")?;
+    let script: Vec<u32> = cx.ch.log[start..].to_vec();
+    let n_in = plan.wire.len();
+    let n_reads = out.world.read_calls;
+    let n_writes = out.world.write_calls;
+    let stride = |n: usize| -> usize { (n / 400).max(1) };
+    let mut faults: Vec<(RFault, WFault)> = Vec::new();
+    for o in (0..=n_in).step_by(stride(n_in)) { faults.push((RFault::EofAt(o), WFault::None)); }
+    for c in (0..n_reads + 1).step_by(stride(n_reads)) { faults.push((RFault::ErrAtCall(c), WFault::None)); }
+    for c in (0..n_writes + 1).step_by(stride(n_writes)) { faults.push((RFault::None, WFault::ErrAtCall(c))); faults.push((RFault::None, WFault::ZeroAtCall(c))); }
+    cx.nontrivial = true;
+    for (rf, wf) in faults {
+        let mut icx = Ctx::new(Chooser::replay(script.clone()), cx.trace);
+        icx.ch.keep_log = false;
+        let label = format!("{rf:?}/{wf:?}");
+        if cx.trace { cx.events.push(format!("--- fault run {label}")); }
+        let fo = run_conn_with(icx, &plan, knobs, &copts(rf, wf), |w| w.force_propagate = true);
+        // merge statistics
+        cx.st.merge(&fo.world.cx.st);
+        cx.digest = fnv_u64(fo.world.cx.digest, cx.digest);
+        cx.skeleton = fnv_u64(fo.world.cx.skeleton, cx.skeleton);
+        if cx.trace { cx.events.extend(fo.world.cx.events.iter().map(|e| format!("    {e}"))); }
+        match (rf, wf) {
+            (RFault::EofAt(_), _) => cx.probe("fault_points_eof"),
+            (RFault::ErrAtCall(_), _) => cx.probe("fault_points_read_err"),
+            (_, WFault::ErrAtCall(_)) => cx.probe("fault_points_write_err"),
+            _ => cx.probe("fault_points_write_zero"),
+        }
+        let w = &fo.world;
+        let fired = w.cx.st.faults.get("eof_injected").copied().unwrap_or(0) + w.cx.st.faults.get("read_error").copied().unwrap_or(0)
+            + w.cx.st.faults.get("write_error").copied().unwrap_or(0) + w.cx.st.faults.get("zero_write").copied().unwrap_or(0);
+        if fired > 0 {
+            let phase = if w.handler_log.iter().any(|h| !h.finished) || w.handler_log.last().map_or(false, |h| h.status.as_deref().map_or(false, |s| s.starts_with("err:"))) { "fault_in_handler" } else if w.handler_log.len() > w.end_requests { "fault_in_close" } else { "fault_in_preamble" };
+            cx.probe(phase);
+        }
+        let site = match (rf, wf) { (RFault::EofAt(_), _) => "eof", (RFault::ErrAtCall(_), _) => "read_error", (_, WFault::ErrAtCall(_)) => "write_error", _ => "zero_write" };
+        // 1. termination without panic or spinning
+        if let Some(p) = &fo.task_panicked { vfail!("c12_panic", site, "fault {label}: connection task panicked: {p}"); }
+        for inv in &w.handler_log { if let Some(v) = &inv.violation { return Err(Violation::new(&v.oracle, site, format!("fault {label}: {}", v.detail))); } }
+        vcheck!(fo.end == "quiescent", "c12_spin", "fault {label}: step cap reached");
+        if fired > 0 || matches!(rf, RFault::EofAt(_)) {
+            if !fo.task_done {
+                vfail!("c12_task_not_terminated", site, "fault {label}: the transport failed / ended but the connection task is still pending (read {} bytes, handler invocations {})", w.read_pos, w.handler_log.len());
+            }
+        }
+        // 2. no handler for a request whose preamble did not arrive completely
+        if let RFault::EofAt(o) = rf {
+            let complete = plan.reqs.iter().filter(|r| r.info.end <= o).count();
+            vcheck!(w.handler_log.len() <= complete, "c12_handler_on_partial_preamble", "EOF at {o}: {} handler invocations but only {complete} preambles arrived completely", w.handler_log.len());
+        }
+        // 3. handler-visible results
+        let limit = if let RFault::EofAt(o) = rf { o } else { usize::MAX };
+        for inv in &w.handler_log {
+            for (k, _, _) in &inv.errors {
+                if k == "UnexpectedEof" { cx.probe("handler_got_unexpected_eof"); }
+                if k == "ConnectionReset" || k == "BrokenPipe" || k == "WriteZero" { cx.probe("handler_got_injected_error"); }
+            }
+        }
+        // 4. nothing written after a failed write (handlers propagate)
+        if w.write_failed_at.is_some() {
+            vcheck!(w.writes_after_failure == 0, "c12_write_after_failure", "fault {label}: {} write calls after the failed write", w.writes_after_failure);
+        }
+        // 5. the log is a prefix of a well-formed record sequence consistent with the handler log
+        let r = check_history_mode(&fo, &plan, false, "c12", true, limit, true).and_then(|()| check_replies(&fo, &plan, w.read_pos, false, "c12"));
+        if let Err(v) = r {
+            return Err(Violation::new(&v.oracle, site, format!("fault {label}: {}", v.detail)));
+        }
+    }
+    Ok(())
+}
+
+pub const C14_PROBES: &[&str] = &["reply_cut_by_shutdown", "idle_at_shutdown", "handler_running_at_shutdown", "shutdown_future_ready_after_conn", "conn_stopped_by_shutdown"];
+
+/// C14 (connection side): graceful shutdown at an arbitrary scheduling step.
+pub fn c14_conn(cx: &mut Ctx) -> VResult {
+    cx.declare(D2_FAULTS, D2_PROBES);
+    cx.declare(&[], C14_PROBES);
+    let o = PlanOpts { max_reqs: 3, noise: cx.ch.pick(3), closed_loop: false, abort: false, small_buf_bias: cx.ch.chance(1, 3), force_keep: true, either_noise: true };
+    let plan = gen_plan(cx, &o);
+    note_plan(cx, &plan);
+    let knobs = gen_knobs(cx, true, plan.wire.len());
+    let after = match cx.ch.weighted(&[2, 3, 3, 2, 1]) { 0 => 0, 1 => cx.ch.range(1, 20), 2 => cx.ch.range(20, 200), 3 => cx.ch.range(200, 2000), _ => cx.ch.range(2000, 20000) } as u64;
+    let inner = take_cx(cx);
+    let mut out = run_conn(inner, &plan, knobs, &ConnOpts { mode: HandlerMode::Seq, rfault: RFault::None, wfault: WFault::None, shutdown: Some(after), strict_no_spurious: false });
+    give_back(cx, &mut out);
+    handler_violations(&out)?;
+    let w = &out.world;
+    vcheck!(out.end == "quiescent", "hang", "step cap reached");
+    vcheck!(w.shutdown_requested_at_step.is_some(), "harness_model", "shutdown was never requested");
+    for (i, inv) in w.handler_log.iter().enumerate() {
+        vcheck!(!inv.started_after_shutdown, "c14_handler_started_after_shutdown", "handler {i} began in a scheduling step of the connection task that started after shutdown was requested");
+        vcheck!(inv.finished, "c14_request_not_completed", "handler {i} was running at shutdown but never finished");
+    }
+    vcheck!(out.task_done, "c14_connection_not_stopped", "shutdown requested but the connection task never finished (suspended on read: {})", w.read_waker.is_some());
+    if w.idle_at_shutdown {
+        cx.probe("idle_at_shutdown");
+        vcheck!(w.reads_after_mark == 0, "c14_idle_read_after_shutdown", "idle connection performed {} transport reads after shutdown was requested", w.reads_after_mark);
+    } else {
+        cx.probe("handler_running_at_shutdown");
+    }
+    vcheck!(!out.shutdown_ready_while_live, "c14_shutdown_ready_early", "shutdown future completed while the connection token was still alive");
+    vcheck!(out.shutdown_done, "c14_shutdown_not_woken", "last token dropped but the shutdown future's task was not woken / not ready");
+    cx.probe("shutdown_future_ready_after_conn");
+    let served_all = w.handler_log.len() == plan.reqs.iter().scan(true, |open, r| { let o = *open; *open = *open && r.flags & 1 == 1; if o { Some(()) } else { None } }).count();
+    if !served_all { cx.probe("conn_stopped_by_shutdown"); }
+    // requests that started complete normally, including their EndRequest. A management reply that the
+    // request parser was still writing when the idle connection was told to stop may be cut short
+    // (the statement is silent on it); nothing else may be missing.
+    let partial = w.log.len() - w.decoded_upto;
+    if partial > 0 {
+        vcheck!(w.idle_at_shutdown || w.handler_log.iter().all(|h| h.finished), "c14_log_wellformed", "partial record at the end of the log although a request was in progress");
+        let t = w.log[w.decoded_upto..].get(1).copied();
+        vcheck!(t.map_or(true, |t| t == GETVALUESRESULT || t == UNKNOWN), "c14_log_wellformed", "partial record of type {t:?} at the end of the log");
+        cx.probe("reply_cut_by_shutdown");
+    }
+    check_history_mode(&out, &plan, false, "c14", false, usize::MAX, true)?;
+    check_replies(&out, &plan, out.world.read_pos, false, "c14")?;
+    Ok(())
 }
